@@ -489,6 +489,19 @@ class Enumerator:
     def _bump(self, p: Path, name: str) -> None:
         p.versions[name] = p.versions.get(name, 0) + 1
 
+    def _freeze_readers(self, p: Path, stored: str) -> None:
+        """A heap location is overwritten: locals whose substituted value still READS that location keep the old value,
+        so they become opaque snapshots (`name@k`) instead of text that would now denote the new value."""
+        key = strip_v(stored)
+        for name, val in list(p.env.items()):
+            if val is None or isinstance(val, ast.Name):
+                continue
+            for n in ast.walk(val):
+                if isinstance(n, (ast.Attribute, ast.Subscript)) and strip_v(U(n)) == key:
+                    self._bump(p, name)
+                    p.env[name] = ast.Name(id=f"{name}@{p.versions[name]}", ctx=ast.Load())
+                    break
+
     def _assign(self, t: ast.expr, v: ast.expr, p: Path, fi: FuncInfo, stateful: Set[str], st: ast.stmt) -> None:
         if isinstance(t, ast.Name):
             if t.id in stateful:
@@ -532,6 +545,7 @@ class Enumerator:
                 b = b.value
             if isinstance(b, ast.Name) and isinstance(t, ast.Subscript) and b.id != "self":
                 self._bump(p, b.id)
+            self._freeze_readers(p, tt)
             return
         raise AnalysisError(f"unsupported assignment target {type(t).__name__} in {fi.qualname}")
 
